@@ -391,7 +391,7 @@ def model(text, want=None):
         sync = dict(
             resolution=res,
             bpm=[dict(tick=t, bpm=float(n / 1000).hex()) for t, n in tempo],
-            ts=[dict(tick=t, upper=u, lower=(4 if l is None else 2**l)) for t, u, l in tsigs],
+            time_signatures=[dict(tick=t, upper=u, lower=(4 if l is None else 2**l)) for t, u, l in tsigs],
             anchors=[dict(tick=t, us=u) for t, u in anchors],
         )
         g = dict(text=[], section=[], lyric=[])
@@ -432,26 +432,6 @@ def model(text, want=None):
 
 # ----------------------------------------------------------------------------------------------
 # comparison helpers
-
-TIME_KEYS = ("ts", "end_ts", "last_note_end")
-
-
-def strip_times(o):
-    """Implementation observation -> the time-free shape the model predicts (anchors keep `us`)."""
-    if isinstance(o, dict):
-        return {k: strip_times(v) for k, v in o.items() if k not in TIME_KEYS}
-    if isinstance(o, list):
-        return [strip_times(x) for x in o]
-    return o
-
-
-def impl_to_model_shape(obs):
-    """strip_times + anchors' timestamp renamed to `us` (an anchor's time is data, not tempo time)."""
-    anchors = [dict(tick=a["tick"], us=a["ts"]) for a in obs["sync"]["anchors"]]
-    o = strip_times(obs)
-    o["sync"]["anchors"] = anchors
-    return o
-
 
 def diff(a, b, path=""):
     """First difference between two plain structures, as a short string (None if equal)."""
